@@ -850,4 +850,91 @@ example : (3 / 5 : ℝ) ^ 2 + (4 / 5) ^ 2 = 1 ∧ (1 : ℝ) ^ 2 + 0 ^ 2 = 1 ∧ 
 
 end splitter
 
+/-! ## 11. Round 5: the clauses about retarders, polarisers and beam splitters on the executed matrices
+
+`retarder`, `polarizer`, `splitterPorts`, `muellerDef`, `J2.adj`, `J2.apply` are the definitions the driver runs (ops `retarder`,
+`polarizer`, `ports`, `mueller`, `applyadj`, `apply`) and the harness compares with `jones_matrix`, `mueller_matrix`, `forward` and
+`backward` of the real elements at Gaussian-rational atoms. -/
+section round5
+variable (c s pc ps xc xs : ℝ)
+
+/-- **Mueller route = Jones route on the executed definitions**, for every Jones matrix: the Stokes vector after `J` is the executed
+`muellerDef J` applied to the Stokes vector before it (partially polarised light, any input Stokes vector). -/
+theorem model_mueller_route_tensor (j e : J2 ℝ) (sv : S4 ℝ) :
+    jonesStokes (j * e) sv = mulVec (muellerDef j) (jonesStokes e sv) := by
+  obtain ⟨⟨xr, xi⟩, ⟨yr, yi⟩, ⟨zr, zi⟩, ⟨wr, wi⟩⟩ := j
+  have h := mueller_after_element_tensor xr xi yr yi zr zi wr wi e sv
+  have hm : ∀ r k, r < 4 → k < 4 → muellerDef (⟨⟨xr, xi⟩, ⟨yr, yi⟩, ⟨zr, zi⟩, ⟨wr, wi⟩⟩ : J2 ℝ) r k = genMueller xr xi yr yi zr zi wr wi r k :=
+    fun r k hr hk => mueller_def_eq xr xi yr yi zr zi wr wi r k hr hk
+  unfold mkJ at h
+  rw [h]
+  simp only [mulVec]
+  rw [hm 0 0, hm 0 1, hm 0 2, hm 0 3, hm 1 0, hm 1 1, hm 1 2, hm 1 3, hm 2 0, hm 2 1, hm 2 2, hm 2 3, hm 3 0, hm 3 1, hm 3 2, hm 3 3] <;>
+    norm_num
+
+/-- … in particular for the executed retarder (all six retarder classes), the executed polariser and both ports of either
+beam splitter: `mueller_matrix · stokes(before) = stokes(after)`. -/
+theorem model_elements_mueller_route (e : J2 ℝ) (sv : S4 ℝ) :
+    jonesStokes (retarder c s ⟨pc, ps⟩ ⟨xc, xs⟩ * e) sv = mulVec (muellerDef (retarder c s ⟨pc, ps⟩ ⟨xc, xs⟩)) (jonesStokes e sv) ∧
+    jonesStokes (polarizer c s * e) sv = mulVec (muellerDef (polarizer c s)) (jonesStokes e sv) ∧
+    jonesStokes (splitterPorts c s (retarder pc ps ⟨xc, xs⟩ ⟨1, 0⟩) e).1 sv
+      = mulVec (muellerDef (polarizer c s)) (mulVec (muellerDef (retarder pc ps ⟨xc, xs⟩ ⟨1, 0⟩)) (jonesStokes e sv)) ∧
+    jonesStokes (splitterPorts c s (retarder pc ps ⟨xc, xs⟩ ⟨1, 0⟩) e).2 sv
+      = mulVec (muellerDef (polarizer (-s) c)) (mulVec (muellerDef (retarder pc ps ⟨xc, xs⟩ ⟨1, 0⟩)) (jonesStokes e sv)) := by
+  refine ⟨model_mueller_route_tensor _ e sv, model_mueller_route_tensor _ e sv, ?_, ?_⟩ <;>
+  · unfold splitterPorts
+    simp only
+    rw [model_mueller_route_tensor, model_mueller_route_tensor]
+
+/-- **The executed linear polariser is an idempotent Hermitian projector**: `P·P = P` and `Pᴴ = P` (so `backward`, which applies
+`Pᴴ`, is `forward`). -/
+theorem model_polarizer_projector (h : c ^ 2 + s ^ 2 = 1) :
+    polarizer c s * polarizer c s = polarizer c s ∧ (polarizer c s).adj = polarizer c s := by
+  have cx_ext : ∀ {a b : Cx ℝ}, a.re = b.re → a.im = b.im → a = b := by
+    intro a b h1 h2; cases a; cases b; simp only at h1 h2; rw [h1, h2]
+  constructor
+  · have e1 : c * c * (c * c) + c * s * (c * s) = c * c := by linear_combination (c * c) * h
+    have e2 : c * c * (c * s) + c * s * (s * s) = c * s := by linear_combination (c * s) * h
+    have e3 : c * s * (c * s) + s * s * (s * s) = s * s := by linear_combination (s * s) * h
+    have e4 : c * s * (c * c) + s * s * (c * s) = c * s := by linear_combination (c * s) * h
+    show J2.mul _ _ = _
+    simp only [J2.mul, polarizer, J2.mk.injEq]
+    refine ⟨?_, ?_, ?_, ?_⟩ <;> apply cx_ext <;>
+      simp only [Cx.add_re, Cx.add_im, Cx.mul_re, Cx.mul_im, mul_zero, zero_mul, sub_zero, add_zero] <;>
+      first | exact e1 | exact e2 | exact e3 | exact e4
+  · simp only [J2.adj, polarizer, Cx.conj, neg_zero]
+
+/-- **Malus' law on the executed polariser**: linearly polarised light `A·(cos α, sin α)` behind a polariser at angle θ carries
+`|A|² cos²(θ − α)` (`cos(θ − α) = c·ca + s·sa`). -/
+theorem model_malus (ca sa : ℝ) (h : c ^ 2 + s ^ 2 = 1) (A : Cx ℝ) :
+    (vecStokes ((polarizer c s).apply ⟨Cx.smul ca A, Cx.smul sa A⟩)).i = A.normSq * (c * ca + s * sa) ^ 2 := by
+  obtain ⟨ar, ai⟩ := A
+  have e1 : (vecStokes ((polarizer c s).apply ⟨Cx.smul ca ⟨ar, ai⟩, Cx.smul sa ⟨ar, ai⟩⟩)).i
+      = (c ^ 2 + s ^ 2) * ((ar * ar + ai * ai) * (c * ca + s * sa) ^ 2) := by
+    jones_model_expand; ring
+  rw [e1, h, one_mul]; simp only [Cx.normSq]
+
+/-- **Retarders on the executed definitions**: `backward` (`Jᴴ·`) undoes `forward` (`J·`) on Jones vectors, and the first row of the
+executed Mueller matrix is `(1, 0, 0, 0)` (the intensity is conserved whatever the Stokes vector). -/
+theorem model_retarder_backward_forward (h : c ^ 2 + s ^ 2 = 1) (hp : pc ^ 2 + ps ^ 2 = 1) (hx : xc ^ 2 + xs ^ 2 = 1) (e : V2 ℝ) :
+    (retarder c s ⟨pc, ps⟩ ⟨xc, xs⟩).adj.apply ((retarder c s ⟨pc, ps⟩ ⟨xc, xs⟩).apply e) = e ∧
+    muellerDef (retarder c s ⟨pc, ps⟩ ⟨xc, xs⟩) 0 0 = 1 ∧ muellerDef (retarder c s ⟨pc, ps⟩ ⟨xc, xs⟩) 0 1 = 0 ∧
+    muellerDef (retarder c s ⟨pc, ps⟩ ⟨xc, xs⟩) 0 2 = 0 ∧ muellerDef (retarder c s ⟨pc, ps⟩ ⟨xc, xs⟩) 0 3 = 0 := by
+  have hu := model_retarder_unitary c s pc ps xc xs h hp hx
+  refine ⟨model_unitary_backward_forward _ hu e, ?_⟩
+  generalize retarder c s ⟨pc, ps⟩ ⟨xc, xs⟩ = j at hu ⊢
+  obtain ⟨⟨xr, xi⟩, ⟨yr, yi⟩, ⟨zr, zi⟩, ⟨wr, wi⟩⟩ := j
+  obtain ⟨r0, r1, r2, r3⟩ := unitary_mueller_first_row xr xi yr yi zr zi wr wi hu
+  have hm : ∀ k, k < 4 → muellerDef (⟨⟨xr, xi⟩, ⟨yr, yi⟩, ⟨zr, zi⟩, ⟨wr, wi⟩⟩ : J2 ℝ) 0 k = genMueller xr xi yr yi zr zi wr wi 0 k :=
+    fun k hk => mueller_def_eq xr xi yr yi zr zi wr wi 0 k (by norm_num) hk
+  rw [hm 0 (by norm_num), hm 1 (by norm_num), hm 2 (by norm_num), hm 3 (by norm_num)]
+  exact ⟨r0, r1, r2, r3⟩
+
+/-- The hypotheses are satisfiable (Pythagorean angle, quarter-wave retardance, circularity 0). -/
+example : (3 / 5 : ℝ) ^ 2 + (4 / 5) ^ 2 = 1 ∧ Real.sqrt (1 / 2) ^ 2 + Real.sqrt (1 / 2) ^ 2 = 1 ∧ (1 : ℝ) ^ 2 + 0 ^ 2 = 1 := by
+  refine ⟨by norm_num, ?_, by norm_num⟩
+  rw [Real.sq_sqrt (by norm_num)]; norm_num
+
+end round5
+
 end HcipyVerif.C08
